@@ -32,6 +32,7 @@ Definition uq_step (guarded : bool) (q : option N) (m : umode) (res : str) (c : 
   : option (option N * umode * str) :=
   match m with
   | UNorm =>
+      if c =? 0 then None else                    (* a NUL character is rejected (repaired; the pinned code pushed it) *)
       if is_quote_char c && at_item_start res && (negb guarded || match q with None => true | Some _ => false end)
       then Some (Some c, UNorm, res)
       else if c =? cBS then Some (q, UEsc, res)
